@@ -401,6 +401,11 @@ pub fn evaluate(vm: &RootedThread, name: &str, src: &str) -> Eval {
             }
         }
     }
+    if failures.iter().any(|f| f.cat == "fmt-output-unparseable") {
+        // the text is not a program: differing comments/literals and the second pass would only
+        // restate the same defect
+        return Eval { parse_err: None, out: Some(out), failures };
+    }
     // (2) comments and literals (mirror of fmt_check on the real token stream)
     match (&sl, lexm::lex_real(&out)) {
         (Some(sl), Ok(ol)) => mirror_check(src, &out, sl, &ol, &mut failures),
